@@ -6,7 +6,7 @@ Import ListNotations.
 Open Scope Z_scope.
 
 Definition row (l r : Z) (sa : list widf) (concat : bool) : rec :=
-  mkRec 19 true false (NumLit l) (NumLit r) (NumLit 100) None (Some (match sa with [] => 0 | _ => 2 end)) sa [] [] true concat false 0%N.
+  mkRec 19 true false (NumLit l) (NumLit r) (NumLit 100) None (Some (match sa with [] => 0 | _ => 2 end)) sa [] [] true concat false 0%N false.
 
 Definition m32 : list cline := [[]; [TNum 3; TNum 2]; [TNum 2; TNum 1; TNum 7]; []; [TNum 0; TNum 0; TNum (-5)]].
 
@@ -57,7 +57,7 @@ Definition pinned_bfacts : bfacts :=
            (mkG CastNone CGe (OConst 0)) CGe (mkG CastNone CGt (OConst 127)) 268435455
            true false false [mkG CastNone CLt (OConst 0)] [mkG CastNone CLt (OConst 0)] 2 3 [] []
            (IAdd (IMul IRight INumLeft) ILeft) (IAdd (IMul IRight INumLeft) ILeft) KRightId KLeftId
-           (mkG CastNone CGt (OConst 127)) true.
+           (mkG CastNone CGt (OConst 127)) true false.
 
 Example pinned_guards_fail_obligation : bfacts_ok pinned_bfacts = false.
 Proof. vm_compute. reflexivity. Qed.
@@ -90,8 +90,30 @@ Proof. eexists. vm_compute. split; reflexivity. Qed.
 (* a surface containing U+0000 reaches an assertion of the trie builder *)
 Example compile_never_panics_refuted_pinned_nul_surface :
   build_with pinned_bfacts (mkInput (SystemDic m32)
-    [mkRec 19 true false (NumLit 0) (NumLit 0) (NumLit 1) None (Some 0) [] [] [] true true true 0%N]) = Panic.
+    [mkRec 19 true false (NumLit 0) (NumLit 0) (NumLit 1) None (Some 0) [] [] [] true true true 0%N true]) = Panic.
 Proof. vm_compute. reflexivity. Qed.
+
+(* a NUL check that looks at the CSV text of the surface instead of its decoded value (nul_surface_is_error = false,
+   raw_nul_surface_is_error = true): a raw NUL byte is still an error value, an escaped one (\u0000, \u{0}) in an indexed
+   row reaches the assertion of the trie builder; in a row that is not indexed it goes unnoticed *)
+Definition raw_nul_check_bfacts : bfacts :=
+  mkBFacts (b_left_g gen_bfacts) (b_left_gi gen_bfacts) (b_right_g gen_bfacts) (b_right_gi gen_bfacts) (b_indexed gen_bfacts)
+           (b_wid_cmp gen_bfacts) (b_list_len gen_bfacts) (b_word_mask gen_bfacts) (b_empty_panics gen_bfacts) false
+           (b_empty_trie_err gen_bfacts) (b_hdr_left_g gen_bfacts) (b_hdr_right_g gen_bfacts) (b_hdr_fields gen_bfacts)
+           (b_line_fields gen_bfacts) (b_elem_left_g gen_bfacts) (b_elem_right_g gen_bfacts) (b_elem_index gen_bfacts)
+           (b_matrix_index gen_bfacts) (b_arg_left gen_bfacts) (b_arg_right gen_bfacts) (b_index_len gen_bfacts)
+           (b_index_checked gen_bfacts) true.
+Definition nulrow (l : Z) (raw : bool) : rec :=
+  mkRec 19 true false (NumLit l) (NumLit 0) (NumLit 1) None (Some 0) [] [] [] true true true 7%N raw.
+
+Example compile_never_panics_refuted_raw_nul_check :
+  map (fun rs => match build_with raw_nul_check_bfacts (mkInput (SystemDic m32) rs) with Ok _ => 1 | Err => 0 | Panic => 2 end)
+      [[nulrow 0 false]; [nulrow 0 true]; [row 0 0 [] true; nulrow (-1) false]]
+  = [2; 0; 1]
+  /\ map (fun rs => match build (mkInput (SystemDic m32) rs) with Ok _ => 1 | Err => 0 | Panic => 2 end)
+      [[nulrow 0 false]; [nulrow 0 true]; [row 0 0 [] true; nulrow (-1) false]]
+  = [0; 0; 0].
+Proof. split; vm_compute; reflexivity. Qed.
 
 (* a lexicon without indexed entries reaches the assertion of the trie builder *)
 Example compile_never_panics_refuted_pinned_no_indexed :
@@ -99,7 +121,7 @@ Example compile_never_panics_refuted_pinned_no_indexed :
 Proof. vm_compute. reflexivity. Qed.
 
 (* ---- the arrays of the word-id table: homographs (rows with one surface) ---- *)
-Definition hrow (l : Z) (s : N) : rec := mkRec 19 true false (NumLit l) (NumLit 0) (NumLit 100) None (Some 0) [] [] [] true true false s.
+Definition hrow (l : Z) (s : N) : rec := mkRec 19 true false (NumLit l) (NumLit 0) (NumLit 100) None (Some 0) [] [] [] true true false s false.
 Definition m11 : list cline := [[TNum 1; TNum 1]].
 
 (* 127 indexed rows of one surface compile (with further rows of that surface that are not indexed, and rows of another
@@ -118,7 +140,7 @@ Definition unchecked_index_bfacts : bfacts :=
            (b_wid_cmp gen_bfacts) (b_list_len gen_bfacts) (b_word_mask gen_bfacts) (b_empty_panics gen_bfacts) (b_nul_err gen_bfacts)
            (b_empty_trie_err gen_bfacts) (b_hdr_left_g gen_bfacts) (b_hdr_right_g gen_bfacts) (b_hdr_fields gen_bfacts)
            (b_line_fields gen_bfacts) (b_elem_left_g gen_bfacts) (b_elem_right_g gen_bfacts) (b_elem_index gen_bfacts)
-           (b_matrix_index gen_bfacts) (b_arg_left gen_bfacts) (b_arg_right gen_bfacts) (b_index_len gen_bfacts) false.
+           (b_matrix_index gen_bfacts) (b_arg_left gen_bfacts) (b_arg_right gen_bfacts) (b_index_len gen_bfacts) false (b_nul_raw_err gen_bfacts).
 
 Example index_arrays_within_limit_refuted_unchecked :
   exists d, build_with unchecked_index_bfacts (mkInput (SystemDic m11) (repeat (hrow 0 5) 128)) = Ok d /\ index_lists_ok d = false.
